@@ -5,12 +5,16 @@ import Driver.StageOps
 import Driver.DamageOps
 import Driver.SerialOps
 import Driver.ShardOps
+import Driver.ChunkOps
+import Driver.FlattenOps
 open Lean Ts.Drv
 
 namespace Ts.Drv
 
 /-- All registered op handlers; first match wins. -/
 def handlers : List Handler := [
+  FlattenOps.handle,
+  ChunkOps.handle,
   ShardOps.handle,
   SerialOps.handle,
   StorageOps.handle,
